@@ -1422,6 +1422,33 @@ def oracle_ss(ctx, s, otol=1e-8):
                 ctx.fail(fam, what + " (%s)" % nm, inp, np.asarray(a).tolist(), np.asarray(b).tolist())
                 return
 
+    # one object, several conversions in a row (in an order drawn from the system itself): each result must be what
+    # a fresh object gives -- nothing may be carried from one conversion to the next, and the continuous model must
+    # not change
+    g = np.random.default_rng(abs(hash((n, round(h, 12), float(np.round(A, 9).sum())))) % (2 ** 32))
+    seq = [str(m) for m in g.choice(["zoha", "zoh", "foh", "tustin", "zoha", "zoh"], size=5)]
+    S1 = ssmodel.SSModel(A.copy(), Bm.copy(), C.copy(), D.copy())
+    try:
+        with warnings.catch_warnings():
+            warnings.simplefilter("ignore")
+            for step, method in enumerate(seq):
+                Zs = S1.c2d(h, method=method)
+                Zf = ssmodel.SSModel(A.copy(), Bm.copy(), C.copy(), D.copy()).c2d(h, method=method)
+                for nm in "ABCD":
+                    if np.asarray(getattr(Zs, nm)).tobytes() != np.asarray(getattr(Zf, nm)).tobytes():
+                        ctx.fail("c2d-call-sequence-%s-after-%s" % (method, "+".join(seq[:step]) or "nothing"),
+                                 "c2d(%s) on an object already used for %s differs from c2d on a fresh object (%s)"
+                                 % (method, seq[:step], nm), dict(inp0, sequence=seq[: step + 1]),
+                                 np.asarray(getattr(Zs, nm)).tolist(), np.asarray(getattr(Zf, nm)).tolist())
+                        raise StopIteration
+            for nm, orig in zip("ABCD", (A, Bm, C, D)):
+                if np.asarray(getattr(S1, nm)).tobytes() != np.asarray(orig, float).tobytes():
+                    ctx.fail("c2d-modifies-continuous-model", "the continuous model changed during c2d (%s)" % nm,
+                             dict(inp0, sequence=seq), np.asarray(getattr(S1, nm)).tolist(), np.asarray(orig).tolist())
+    except StopIteration:
+        pass
+    except Exception:  # noqa: BLE001 - a raising conversion is reported by the loop below
+        pass
     for method in ("zoh", "zoha", "foh", "tustin"):
         for prewarp in ((0,) if method != "tustin" else (0, None, 1.3 / h)):
             inp = dict(inp0, method=method, prewarp=prewarp)
